@@ -61,6 +61,7 @@ type Thread struct {
 	done     bool
 	started  bool
 	yielded  bool
+	spun     bool // had its turn as a polite waiter since the last progress of anybody else
 	steps    int
 	Local    any // thread-local slot for shims (e.g. pending channel op)
 }
@@ -384,19 +385,52 @@ func (x *Exec) schedule(self *Thread) {
 			en = append([]*Thread{self}, en...)
 		}
 		if len(en) == 0 && len(yl) > 0 {
-			// only polite waiters are runnable: if a timer is pending let time pass first
-			// (a spinner waiting for a timer-driven event), otherwise run them.
-			if x.now < int64(x.Opts.MaxVirtual) && x.fireNextTimer() {
-				continue
+			// Only polite waiters (spin loops) are runnable. Each gets one turn per round; when all of
+			// them have spun without anything else happening, time passes (if a required thread is
+			// still waiting) or the execution is quiescent (spinning daemons count as blocked).
+			var fresh []*Thread
+			for _, t := range yl {
+				if !t.spun {
+					fresh = append(fresh, t)
+				}
 			}
-			en = yl
-			for i, t := range en {
+			if len(fresh) == 0 {
+				waiting := false
+				for _, t := range x.threads {
+					if !t.done && t.Required {
+						waiting = true
+					}
+				}
+				if waiting && x.now < int64(x.Opts.MaxVirtual) && x.fireNextTimer() {
+					for _, t := range x.threads {
+						t.spun = false
+					}
+					continue
+				}
+				st := Quiescent
+				if waiting {
+					st = Deadlock
+					for _, t := range x.threads {
+						if !t.done && t.Required {
+							x.blockedOnDeadlock = append(x.blockedOnDeadlock, t.Name+"@"+t.kind)
+						}
+					}
+				}
+				x.finishFrom(self, st)
+				return
+			}
+			en = fresh
+			for _, t := range en {
 				if t == self {
-					en[0], en[i] = en[i], en[0]
 					selfEnabled = true
 				}
 			}
-			sort.SliceStable(en[btoi(selfEnabled):], func(i, j int) bool { return en[btoi(selfEnabled)+i].ID < en[btoi(selfEnabled)+j].ID })
+			sort.SliceStable(en, func(i, j int) bool {
+				if (en[i] == self) != (en[j] == self) {
+					return en[i] == self
+				}
+				return en[i].ID < en[j].ID
+			})
 		}
 		if len(en) == 0 {
 			// Time only passes on behalf of unfinished required threads: periodic
@@ -443,6 +477,13 @@ func (x *Exec) schedule(self *Thread) {
 			continue
 		}
 		next := en[c]
+		if next.yielded {
+			next.spun = true
+		} else {
+			for _, t := range x.threads {
+				t.spun = false
+			}
+		}
 		next.yielded = false
 		next.steps++
 		x.mix(next.Name)
